@@ -707,21 +707,11 @@ func c16EndToEnd(b *mon.B, r *gen.R, caseNo int, format string, docs []c16Doc, e
 	defer rel.Close()
 	rel.Net.SetKeepLog(false)
 	lastGood = docs[0].Cfg
-	for _, d := range docs[1:] {
-		if err := rel.PublishDoc(d.Raw[format]); err == nil && d.Cfg != nil {
-			lastGood = d.Cfg
-		}
-	}
-	fresh, err := refsrv.Start(*lastGood, opt)
-	if err != nil {
-		b.Inconclusive("fresh server did not start on the last good document: %v", err)
-		return
-	}
-	defer fresh.Close()
-	fresh.Net.SetKeepLog(false)
-	b.Count("end_to_end_histories", 1)
+	// in half of these histories the long-lived server also carries traffic between the loads (the
+	// same requests that are compared at the end): whatever it remembers of answers given under an
+	// earlier configuration must not survive the reload
+	trafficBetween := (caseNo/3)%2 == 0
 	// probes: lookups
-	var probes []string
 	users := map[string]bool{"intruder": true}
 	for _, d := range docs {
 		if d.Cfg != nil {
@@ -785,8 +775,25 @@ func c16EndToEnd(b *mon.B, r *gen.R, caseNo int, format string, docs []c16Doc, e
 		}
 		return out
 	}
+	for _, d := range docs[1:] {
+		if trafficBetween {
+			observe(rel)
+			b.Count("end_to_end_traffic_rounds_between_loads", 1)
+		}
+		if err := rel.PublishDoc(d.Raw[format]); err == nil && d.Cfg != nil {
+			lastGood = d.Cfg
+		}
+	}
+	fresh, err := refsrv.Start(*lastGood, opt)
+	if err != nil {
+		b.Inconclusive("fresh server did not start on the last good document: %v", err)
+		return
+	}
+	defer fresh.Close()
+	fresh.Net.SetKeepLog(false)
+	b.Count("end_to_end_histories", 1)
 	got, want := observe(rel), observe(fresh)
-	probes = got
+	probes := got
 	b.Count("end_to_end_probes", len(probes))
 	for i := range want {
 		if i >= len(got) || got[i] != want[i] {
